@@ -473,7 +473,7 @@ fn misuse_part(rep: &mut Report) {
     let t = rep.thorough();
     let mut scns = Vec::new();
     // (topology, window, spectator, handshake phase)
-    for (tp, w, spec, hs) in [("1+1", 2usize, false, false), ("2+1", 8, false, false), ("1+1", 8, true, false), ("1+1", 0, false, false), ("1+1", 2, false, true)] {
+    for (tp, w, spec, hs) in [("1+1", 2usize, false, false), ("2+1", 8, false, false), ("1+2", 2, false, false), ("1+1", 8, true, false), ("1+1", 0, false, false), ("1+1", 2, false, true)] {
         let mut base = base_scn("c16-misuse", tp, w, 0, false, Pred::RepeatLast, Program::Changing, 1);
         if spec {
             base.specs.push(SpecSpec::new(20, base.peers[0].addr));
@@ -519,14 +519,17 @@ fn misuse_part(rep: &mut Report) {
                 }
             }
         }
-        // disconnecting an already disconnected player: a valid disconnect first
+        // disconnecting an already disconnected player: a valid disconnect first, then the same
+        // handle again or (two players at one address) its sibling, which went with it
         if !hs {
             for r in [2, 5] {
-                let mut s = base.clone();
-                s.script.push(ScriptItem { round: r, node: 0, action: Action::Disconnect { handle: remote_h } });
-                s.name = format!("{} valid disconnect@{r} then again", base.name);
-                s.checks = crate::props::drop::CK_DROP;
-                scns.push(s);
+                for sibling in 0..base.peers[1].locals.len() {
+                    let mut s = base.clone();
+                    s.script.push(ScriptItem { round: r, node: 0, action: Action::Disconnect { handle: remote_h } });
+                    s.name = format!("{} valid disconnect@{r} then again sibling={sibling}", base.name);
+                    s.checks = crate::props::drop::CK_DROP;
+                    scns.push(s);
+                }
             }
         }
     }
@@ -548,7 +551,9 @@ fn misuse_judge_wrapper(scn: &Scenario, res: &ExecResult, b: Option<&ExecResult>
         let r = scn.script[0].round;
         let mut s2 = scn.clone();
         if let Action::Disconnect { handle } = scn.script[0].action {
-            s2.script.push(ScriptItem { round: r + 2, node: 0, action: Action::Disconnect { handle } });
+            let sib: usize = scn.name.rsplit("sibling=").next().and_then(|x| x.parse().ok()).unwrap_or(0);
+            let h2 = scn.peers[scn.owner_of(handle)].locals.get(sib).copied().unwrap_or(handle);
+            s2.script.push(ScriptItem { round: r + 2, node: 0, action: Action::Disconnect { handle: h2 } });
         }
         let res2 = run_scn(&s2, &Vec::new(), &RunOpt::default());
         let nt = &res2.nodes[0];
